@@ -31,7 +31,8 @@ KEEP = os.environ.get("VERIF_KEEP", "0") != "0"
 
 CHECK_FLAGS = ["--bounds-check", "--pointer-check", "--pointer-overflow-check",
                "--signed-overflow-check", "--conversion-check", "--div-by-zero-check",
-               "--pointer-primitive-check", "--drop-unused-functions", "--slice-formula"]
+               "--pointer-primitive-check", "--drop-unused-functions", "--slice-formula",
+               "--no-malloc-may-fail"]
 
 
 class Undecided(Exception):
@@ -330,7 +331,8 @@ class UnitBuild:
         u = self.u
         tu = os.path.join(u["dir"], u["tu"])
         self.obj = os.path.join(self.scratch, "unit.o")
-        cmd = ["goto-cc"] + self.cflags() + ["-DVERIF_CBMC=1", "-c", tu, "-o", self.obj]
+        # __NO_CTYPE: glibc's <ctype.h> then declares functions instead of table-lookup macros, so CBMC's models apply
+        cmd = ["goto-cc"] + self.cflags() + ["-DVERIF_CBMC=1", "-D__NO_CTYPE=1", "-c", tu, "-o", self.obj]
         rc, out, err, secs = run(cmd, 600)
         self.compile_s = secs
         self.compile_cmd = " ".join(cmd)
@@ -381,6 +383,8 @@ def trace_inputs(trace):
         base = re.split(r"[\[.]", lhs)[0]
         if not (base.startswith("in_") or base.startswith("nd_")):
             continue
+        if lhs in vals and st.get("assignmentType") == "actual-parameter":
+            continue
         v = st.get("value", {})
         vals[lhs] = flatten_value(v)
     return vals
@@ -416,10 +420,12 @@ def flat_inputs(vals):
     """(name, byte offset, hex) triples for scalars and arrays of scalars; later entries override"""
     lines = []
     for lhs, v in vals.items():
-        m = re.match(r"^(\w+)(?:\[(\d+)l?\])?$", lhs)
+        m = re.match(r"^(\w+?)(?:_w\.a)?(?:\[(\d+)l?\])?$", lhs)
         if not m:
             continue
         name, idx = m.group(1), m.group(2)
+        if isinstance(v, dict) and list(v.keys()) == ["a"] and name.endswith("_w"):
+            name, v = name[:-2], v["a"]   # IN_ARR wrapper struct
         if isinstance(v, list):
             off = 0
             for e in v:
@@ -829,7 +835,8 @@ def write_evidence(prop, tier, seed, n_obl, n_dis, n_int, samples, unit_rows, bo
         meta = json.load(open(mp)).get(prop, {})
     assumptions = list(meta.get("assumptions", []))
     trusted = ["cbmc 6.11.0 (C/C++ front ends, goto-instrument DFCC contract instrumentation, MiniSat2)",
-               "machine arithmetic: CBMC bit-precise x86-64 model"]
+               "machine arithmetic: CBMC bit-precise x86-64 model",
+               "memory allocation never fails (cbmc --no-malloc-may-fail): out-of-memory behaviour is outside every claimed property"]
     surroundings = list(meta.get("unverified_surroundings", []))
     hdr = []
     for (u, hs) in sel:
